@@ -52,7 +52,13 @@ func (token MockToken) ToMinCoin(coin sdk.DecCoin) (sdk.Coin, error) {
 	}
 
 	if token.MinUnit == coin.Denom {
-		return sdk.NewCoin(coin.Denom, coin.Amount.TruncateInt()), nil
+		// truncated on big.Int for the same reason as below: out of range is an error, not a panic
+		amount := new(big.Int).Quo(coin.Amount.BigInt(), sdk.OneDec().BigInt())
+		if amount.BitLen() > 255 {
+			return sdk.Coin{}, sdkerrors.Wrapf(ErrInvalidPricing, "amount %s out of range", coin.Amount)
+		}
+
+		return sdk.NewCoin(coin.Denom, sdk.NewIntFromBigInt(amount)), nil
 	}
 
 	precision := math.Pow10(int(token.Scale))
